@@ -717,6 +717,12 @@ func (t *Transition) emitEvents() Result {
 			result = t.emitHandler(StateAny, StateAny, false, true,
 				StateAny+SuffixEnter, t.Mutation.Args)
 		}
+
+		// a panic in a negotiation handler cancels the whole transition, a
+		// partially accepted auto one included
+		if t.IsCompleted.Load() {
+			result = Canceled
+		}
 	}
 
 	// skip for CanAdd and CanRemove
